@@ -41,7 +41,7 @@ def _strategy(ctx):
                      st.sampled_from([0, 0, 2, 6]))
 
 
-def closure_errors(db):
+def closure_errors(db, expect_elements=None):
     """-> list of (key, text) violations of referential closure / mutual consistency"""
     errs = []
     idx = {k: idbfmt.by_index(db, k) for k in idbfmt.KINDS}
@@ -95,6 +95,33 @@ def closure_errors(db):
         for lst in ("constructors", "methods", "casts", "elements", "make_seqs", "nested_types"):
             if len(set(t[lst])) != len(t[lst]):
                 errs.append(("listed-twice:" + lst, "type %r lists an entry of %s twice" % (t["scoped_name"], lst)))
+    LINKS = ("getter", "setter", "has_function", "clear_function", "del_function", "length_function", "insert_function", "getkey_function")
+
+    def ancestors(ti, acc):
+        for dv in T[ti]["derivations"]:
+            if dv["base"] in T and dv["base"] not in acc:
+                acc.add(dv["base"])
+                ancestors(dv["base"], acc)
+        return acc
+    for t in db["types"]:
+        fam = ancestors(t["index"], {t["index"]})
+        for ei in t["elements"]:
+            for fld in LINKS:
+                fi = E[ei].get(fld, 0)
+                if fi and F[fi]["class_"] and F[fi]["class_"] not in fam:
+                    errs.append(("element-link-foreign:" + fld, "element %r of type %r names %s %r, a member of type %d" % (
+                        E[ei]["scoped_name"], t["scoped_name"], fld, F[fi]["scoped_name"], F[fi]["class_"])))
+    for e in db["elements"]:
+        want = (expect_elements or {}).get(e["scoped_name"])
+        if want is None:
+            continue
+        for fld in LINKS:
+            got = F[e[fld]]["name"] if e.get(fld, 0) else None
+            if got != want.get(fld):
+                errs.append(("element-link-wrong:" + fld, "element %r: %s is %r, declared as %r" % (e["scoped_name"], fld, got, want.get(fld))))
+    for name in (expect_elements or {}):
+        if not any(e["scoped_name"] == name for e in db["elements"]):
+            errs.append(("element-missing", "no element record for the declared property %r" % name))
     un = [x["unique_name"] for x in db["wrappers"] if x["unique_name"]]
     dup = sorted({n for n in un if un.count(n) > 1})
     if dup:
@@ -150,6 +177,12 @@ def judge(case, ctx):
     extra_h = ""
     if names:
         extra_h = "BEGIN_PUBLISH\n" + "".join("int %s(int a0);\n" % n for n in names) + "END_PUBLISH\n"
+    expect_el = None
+    if not case.get("literal"):
+        # a class with every flavour of property (sequence, mapping with a key sequence, has/clear, deleter); the links of its
+        # element records are compared with the declarations
+        ph, _, expect_el = hgen.props_header(case["naming"] + case["collide"] + len(flags))
+        extra_h = ph + extra_h
     classes = ["be." + be, "naming.%d" % case["naming"]] + ["opt." + f for f in flags] + (["collide.%d" % len(names)] if names else [])
     with run.Scratch("c11") as d:
         bindgen.write_lib(d, lib, extra_h, "")
@@ -159,7 +192,7 @@ def judge(case, ctx):
         if r.rc != 0:
             return Outcome(ok=True, classes=classes + ["interrogate.rejected"])
         db = igate.load_db(os.path.join(d, "l.in"))
-        errs = closure_errors(db)
+        errs = closure_errors(db, expect_el)
         if errs:
             return Outcome(ok=False, key="closure:" + errs[0][0], classes=classes, detail="%s %s: %s (%d problems in all)" % (be, " ".join(naming + flags), errs[0][1], len(errs)))
         n_sig = 0
